@@ -24,6 +24,10 @@ def handle (u : Unit) (op : String) (args : List Json) : Unit × Json :=
     (u, match runScript ((jarr ps).map phaseOf) ((jarr os).map outcomeOf) with
         | .ok r => Json.arr #["ok", Json.arr (r.map (fun (s, st) => Json.arr #[s, statusName st])).toArray]
         | .error e => Json.arr #["raise", e])
+  | "overall", [sts] =>
+    (u, Json.str (statusName (overall ((jarr sts).filterMap (fun j => match jstr j with
+      | "success" => some Status.success | "warnings" => some .warnings | "failed" => some .failed
+      | "notExecuted" => some .notExecuted | _ => none)))))
   | "checkeq", [a, b] => (u, Json.bool (checkEq Gen.Compliance.cover (valOfJson a) (valOfJson b)))
   | _, _ => (u, Json.arr #["bad-op"])
 
